@@ -101,26 +101,6 @@ func checkC18Sched(job *Job, res *Result) {
 	if b, ok := job.Params["bound"].(float64); ok {
 		bound = int(b)
 	}
-	// lock-free read-only scripts share the interpreter pool: one of them under a TIMEOUT
-	// (its interpreter carries a context until the call has been cleaned up), function-entry
-	// and after-deferred-call scheduling points, two preemptions; every reply must be the
-	// reply the same command gets alone
-	for _, p := range []c11SchedParams{
-		{Name: "readers:timeout-evalna-vs-evalna", Fine: true, Prop: "C18", Conns: [][][]string{
-			{{"TIMEOUT", "5", "EVALNA", "return tile38.call('GET','k','a')", "0"}},
-			{{"EVALNA", "local a = tile38.call('GET','k','a'); local b = tile38.call('GET','k','b'); return {a, b}", "0"}}}},
-		{Name: "readers:timeout-evalna-vs-timeout-evalna", Fine: true, Prop: "C18", Conns: [][][]string{
-			{{"TIMEOUT", "5", "EVALNA", "return tile38.call('GET','k','a')", "0"}},
-			{{"TIMEOUT", "5", "EVALNA", "local a = tile38.call('GET','k','a'); local b = tile38.call('GET','k','b'); return {a, b}", "0"}}}},
-	} {
-		p := p
-		sc := schedScenario{Name: "c18." + p.Name, Params: p, Run: func(prefix []int) schedOut { return c11SchedRun(job, p, prefix) }}
-		st := exploreSched(job, res, sc, bound)
-		res.Extra[sc.Name] = map[string]any{"execs": st.Execs, "outcomes": len(st.Outcomes), "max_choice_points": st.MaxPoints}
-		if res.EngineError != "" {
-			return
-		}
-	}
 	for _, p := range c18Scenarios(job.Tier) {
 		p := p
 		sc := schedScenario{Name: "c18." + p.Name, Params: p, Run: func(prefix []int) schedOut {
@@ -155,6 +135,27 @@ func checkC18Sched(job *Job, res *Result) {
 			b = bound - 1
 		}
 		st := exploreSched(job, res, sc, b)
+		res.Extra[sc.Name] = map[string]any{"execs": st.Execs, "outcomes": len(st.Outcomes), "max_choice_points": st.MaxPoints}
+		if res.EngineError != "" {
+			return
+		}
+	}
+	// (last: at the thorough bound they take whatever budget the scenarios above leave)
+	// lock-free read-only scripts share the interpreter pool: one of them under a TIMEOUT
+	// (its interpreter carries a context until the call has been cleaned up), function-entry
+	// and after-deferred-call scheduling points, two preemptions; every reply must be the
+	// reply the same command gets alone
+	for _, p := range []c11SchedParams{
+		{Name: "readers:timeout-evalna-vs-evalna", Fine: true, Prop: "C18", Conns: [][][]string{
+			{{"TIMEOUT", "5", "EVALNA", "return tile38.call('GET','k','a')", "0"}},
+			{{"EVALNA", "local a = tile38.call('GET','k','a'); local b = tile38.call('GET','k','b'); return {a, b}", "0"}}}},
+		{Name: "readers:timeout-evalna-vs-timeout-evalna", Fine: true, Prop: "C18", Conns: [][][]string{
+			{{"TIMEOUT", "5", "EVALNA", "return tile38.call('GET','k','a')", "0"}},
+			{{"TIMEOUT", "5", "EVALNA", "local a = tile38.call('GET','k','a'); local b = tile38.call('GET','k','b'); return {a, b}", "0"}}}},
+	} {
+		p := p
+		sc := schedScenario{Name: "c18." + p.Name, Params: p, Run: func(prefix []int) schedOut { return c11SchedRun(job, p, prefix) }}
+		st := exploreSched(job, res, sc, bound)
 		res.Extra[sc.Name] = map[string]any{"execs": st.Execs, "outcomes": len(st.Outcomes), "max_choice_points": st.MaxPoints}
 		if res.EngineError != "" {
 			return
